@@ -9,8 +9,8 @@ CFG = dict(
     props="Props/C03.v",
     trusted=COMMON_TRUSTED + ["go/types + go/constant (installed Go release) as the reference for acceptance, value and type of every constant",
                               "hand-written models Const/YaegiConst.v (Y) of the constant machinery of interp/{cfg,op,typecheck,type,gta,ast,value,run}.go and Const/ConstSem.v (G) of the Go specification, tied by correspondence on generated programs and by function-level correspondence (representableConst, convertConst through verif exports)"],
-    level_text="Coq theorems (unbounded: all expression trees of the untyped integer/rune/string/boolean fragment at any depth and magnitude, all const groups over that fragment, all integers against every integer type, all rationals and integers against float32/float64 (one rounding of the exact value); refutation witnesses for the defect regions) about executable models of yaegi's constant folding (Y: decorated trees, repeated visits, go/constant glue, representableConst/convertConst) and of the Go specification (G); Y is tied to the source on every run by evaluating it inside Coq on every generated program and comparing with what yaegi printed or rejected; G is validated against go/types + go/constant on the same programs.",
-    level_note="Trusted: Coq kernel + vm_compute, no axioms; harness; go/types as the reference. The constant code of yaegi is modelled by hand and tied by correspondence (about 8,600 cases per quick run including enumerated boundary literals for every integer width and constants chosen for float32/float64 rounding in every declaration form, and every integer type x width boundary x expression shape x declaration context).",
+    level_text="Coq theorems (unbounded: all expression trees of the untyped integer/rune/FLOATING-POINT/string/boolean fragment at any depth and magnitude — floating-point constants as exact rationals, mixed operands with Go's kind promotion, truncating vs exact quotient, rejections — kind and exact value (C03_untyped_float); the same trees meeting every typed numeric destination: integrality, range, one rounding (C03_typed_dest_float_partial); all const groups over the integer/string/boolean fragment, all integers against every integer type, all rationals and integers against float32/float64 (one rounding of the exact value); refutation witnesses for the defect regions) about executable models of yaegi's constant folding (Y: decorated trees, repeated visits, go/constant glue, representableConst/convertConst) and of the Go specification (G); Y is tied to the source on every run by evaluating it inside Coq on every generated program and comparing with what yaegi printed or rejected; G is validated against go/types + go/constant on the same programs.",
+    level_note="Trusted: Coq kernel + vm_compute, no axioms; harness; go/types as the reference. The constant code of yaegi is modelled by hand and tied by correspondence (about 12,900 cases per quick run including about 3,000 seeded trees of the proved int/rune/float fragment whose untyped kind and exact go/constant value are compared with G.eval and Y.eval inside Coq, 1,000 of them also run by yaegi as a printed expression, a conversion to every numeric type or a typed variable, enumerated boundary literals for every integer width and constants chosen for float32/float64 rounding in every declaration form, and every integer type x width boundary x expression shape x declaration context).",
     technique="Coq proof by induction over expression trees and spec lists + model/implementation correspondence evaluated in Coq",
     assumptions=["complex constants are outside the model",
                  "floating-point infinities and NaN are outside the model: programs in which yaegi's machine arithmetic on typed floats could produce them are not generated (input-side rules, counted as discarded:unmodelled)",
